@@ -37,16 +37,20 @@ ASSUMPTIONS = [
 TRUSTED = ["harness-side Python re-implementation of model and oracle in c19.py is used only to classify known findings"]
 MANIFEST = dict(
     text="Machine-checked theorems (Coq 8.16.1) about an executable Gallina model over exact rationals of the three pandas pipelines "
-         "(dominant_bpm: concat/sort/diff/positional set_axis/groupby-sum/idxmax; scroll_speed: head/tail rows, stable sort, ffill/bfill, "
-         "drop_duplicates, SV table with groupby-last, outer merge; sv_normalize): for every chart in the property's domain whose tempo rows are "
-         "sorted and whose last timed row is a note, the returned bpm maximises the independently specified active time; for every chart and "
-         "every reference, scroll speed at every breakpoint is bpm/ref*SV and sv_normalize returns exactly one SV per tempo point with mult*bpm=ref; "
-         "the boolean oracles are proved sound.  The statement is refuted (concrete witnesses, vm_compute) for unsorted tempo rows, a tempo "
-         "point after the last note and an SV after the last note.  The model is tied to the code on every run by in-Coq correspondence "
-         "on charts of all five games and the oracle is evaluated on the implementation's outputs.",
+         "(dominant_bpm: stack max/concat/sort/diff/positional set_axis/groupby-sum/idxmax; scroll_speed: head/tail rows, stable sort, "
+         "ffill/bfill, drop_duplicates, SV table with groupby-last, outer merge; sv_normalize). Proved for ALL inputs: for every chart in the "
+         "property's domain whose tempo rows are in time order and whose last timed row is a note, the returned bpm maximises the independently "
+         "specified active time (C19_dominant_is_argmax); for every chart of the domain and every override > 0 (or a dominant reference under that "
+         "guard) sv_normalize returns exactly one SV per tempo point with mult*bpm=ref (C19_sv_normalize_spec); the three boolean oracles are sound "
+         "(the dominant one also complete). The unguarded dominant statement is refuted with concrete witnesses (unsorted tempo rows, tempo point "
+         "after the last note, SV after the last note). PARTIAL: scroll_speed = bpm/ref*SV at every breakpoint is proved only for an exhaustive "
+         "small scope (about 35 000 charts, all row orders, SVs before/at/after tempo points and coincident) by evaluating the proven-sound oracle "
+         "on the model; beyond it scroll_speed rests on the per-run in-Coq correspondence (all five games) plus the oracle evaluated on the "
+         "implementation's outputs.",
     note="Trusted: Coq kernel+VM, harness generator/serialiser; binary64 rounding measured (rounded stream, rel. tol 1e-9) not proved; pandas' "
-         "unstable sort modelled as stable.  Known findings (kept in the generator's reach): dominant-unsorted-rows, "
-         "dominant-tempo-after-last-object, dominant-sv-after-last-object; scroll_speed/sv_normalize inherit them through the reference bpm.",
+         "unstable sort modelled as stable; 'object' read as note (hold tails not counted). Known findings (kept in the generator's reach): "
+         "dominant-unsorted-rows, dominant-tempo-after-last-object, dominant-sv-after-last-object; scroll_speed/sv_normalize inherit them "
+         "through the reference bpm. All Props theorems are 'Closed under the global context'.",
     technique="Coq proof over executable model + vm_compute correspondence against the implementation",
     design="4/C19")
 
@@ -327,6 +331,10 @@ def _gen_chart(rng, kind, exact, big=False):
                 o = _off(rng, exact, int(first) - 200, 14000)
             x = Fr(rng.choice(MULTS)) if exact else Fr(float(rng.choice([rng.randint(10, 1000) / 100, rng.uniform(0.01, 10)])))
             svs.append([o, x])
+    # most charts end with a note (inside the guard of the dominant-bpm theorem); the rest keep a tempo point or SV after it
+    if rng.random() < 0.6:
+        tail = max([last_t] + [o for o, _ in (svs or [])] + notes)
+        notes.append(tail + Fr(rng.choice([0, 0, 1, 250, 3000])))
     # split notes into hits / holds / extra
     hits, holds, extra = [], [], []
     for o in notes:
@@ -339,9 +347,9 @@ def _gen_chart(rng, kind, exact, big=False):
             extra.append(o)
     # row order
     order = rng.random()
-    if order < 0.3:
+    if order < 0.2:
         rng.shuffle(bpms)
-    elif order < 0.36:
+    elif order < 0.25:
         bpms.reverse()
     if svs is not None and rng.random() < 0.4:
         rng.shuffle(svs)
